@@ -71,19 +71,19 @@ func (s *State) clone() *State {
 
 // Obligation is one verification condition.
 type Obligation struct {
-	Fn     string
-	Kind   string // ensures | requires | inv-init | inv-pres | nil | bounds | assert | frame | panic | div | conv | ovf | mapnil | lemma | vacuity
-	Label  string
-	Ord    int
-	Reach  string
-	Goal   string
-	Clause *Clause
-	Props  []string
-	Pos    string
-	Script string // filled at solve time
-	Expect string // "unsat" normally; "sat" for vacuity guards
-	B      *Builder
-	Extra  []string
+	Fn      string
+	Kind    string // ensures | requires | inv-init | inv-pres | nil | bounds | assert | frame | panic | div | conv | ovf | mapnil | lemma | vacuity
+	Label   string
+	Ord     int
+	Reach   string
+	Goal    string
+	Clause  *Clause
+	Props   []string
+	Pos     string
+	Script  string // filled at solve time
+	Expect  string // "unsat" normally; "sat" for vacuity guards
+	B       *Builder
+	Extra   []string
 	GetVals []string // terms whose model values are wanted on sat
 }
 
@@ -92,24 +92,24 @@ func (o *Obligation) Name() string { return fmt.Sprintf("%s@%d", o.Base(), o.Ord
 
 // Trans translates one top-level function.
 type Trans struct {
-	P       *Program
-	DB      *ContractDB
-	B       *Builder
-	arrSort map[string]string
-	obls    []*Obligation
-	ordCnt  map[string]int
-	frames  int
-	topKey  string
-	fc      *FuncContract
-	entry   *State
-	safety  bool // generate safety obligations
-	trusted map[string]bool // trusted / assumed things used
+	P           *Program
+	DB          *ContractDB
+	B           *Builder
+	arrSort     map[string]string
+	obls        []*Obligation
+	ordCnt      map[string]int
+	frames      int
+	topKey      string
+	fc          *FuncContract
+	entry       *State
+	safety      bool            // generate safety obligations
+	trusted     map[string]bool // trusted / assumed things used
 	inlineDepth int
 	unsupported []string
-	mergeInfo map[string][]edge // merged epoch -> the incoming states (arrays first used later are resolved through them)
-	verAlloc  map[string]string // heap array version -> allocation counter when the version was created
-	baseAlloc map[string]string
-	lastAlloc string
+	mergeInfo   map[string][]edge // merged epoch -> the incoming states (arrays first used later are resolved through them)
+	verAlloc    map[string]string // heap array version -> allocation counter when the version was created
+	baseAlloc   map[string]string
+	lastAlloc   string
 	lastVersion string // heap array version of the last load, and its nesting depth (1 field/cell, 2 element)
 	lastDepth   int
 	sealedCache map[string][]types.Type
@@ -398,10 +398,10 @@ type edge struct {
 
 type callRec struct {
 	common *ssa.CallCommon // identifies the call site
-	val  *Val
-	cond string
-	args []*Val
-	argT []types.Type
+	val    *Val
+	cond   string
+	args   []*Val
+	argT   []types.Type
 }
 
 type retInfo struct {
@@ -419,33 +419,33 @@ type loopInfo struct {
 }
 
 type frame struct {
-	t      *Trans
-	fn     *ssa.Function
-	id     int
-	top    bool
-	depth  int
-	vals   map[ssa.Value]*Val
-	in     map[*ssa.BasicBlock][]edge
-	loops  map[*ssa.BasicBlock]*loopInfo
-	params []*Val
-	entry  *State // state at function entry (for old())
-	rets   []retInfo
-	names  map[string][]ssa.Value // source variable name -> SSA values
-	allocs map[string]*ssa.Alloc
-	hdrEnv map[*ssa.BasicBlock]*State
+	t               *Trans
+	fn              *ssa.Function
+	id              int
+	top             bool
+	depth           int
+	vals            map[ssa.Value]*Val
+	in              map[*ssa.BasicBlock][]edge
+	loops           map[*ssa.BasicBlock]*loopInfo
+	params          []*Val
+	entry           *State // state at function entry (for old())
+	rets            []retInfo
+	names           map[string][]ssa.Value // source variable name -> SSA values
+	allocs          map[string]*ssa.Alloc
+	hdrEnv          map[*ssa.BasicBlock]*State
 	curLoopHdrState map[*ssa.BasicBlock]*State
-	retCount int
-	fc     *FuncContract
-	site   ssa.CallInstruction
-	lets   map[string]cval
-	loopEff map[*loopInfo]*effects
-	loopPre map[*loopInfo]*State
-	loopEntry map[*loopInfo]map[*ssa.Phi]string // value of each header phi when the loop was entered ($entry_<name>)
-	callLog map[string][]callRec
-	sitesCache map[string][]*ssa.CallCommon
-	preTerm string // the function's precondition (top frame)
-	prefix string // obligation label prefix of an inlined activation
-	silent bool   // no obligations (evaluation of contract expressions)
+	retCount        int
+	fc              *FuncContract
+	site            ssa.CallInstruction
+	lets            map[string]cval
+	loopEff         map[*loopInfo]*effects
+	loopPre         map[*loopInfo]*State
+	loopEntry       map[*loopInfo]map[*ssa.Phi]string // value of each header phi when the loop was entered ($entry_<name>)
+	callLog         map[string][]callRec
+	sitesCache      map[string][]*ssa.CallCommon
+	preTerm         string // the function's precondition (top frame)
+	prefix          string // obligation label prefix of an inlined activation
+	silent          bool   // no obligations (evaluation of contract expressions)
 }
 
 func (t *Trans) newFrame(fn *ssa.Function, top bool, depth int) *frame {
@@ -525,7 +525,9 @@ func (f *frame) analyse() ([]*ssa.BasicBlock, error) {
 	for h := range f.loops {
 		hdrs = append(hdrs, h)
 	}
-	sort.Slice(hdrs, func(i, j int) bool { return blockPos(hdrs[i]) < blockPos(hdrs[j]) || (blockPos(hdrs[i]) == blockPos(hdrs[j]) && hdrs[i].Index < hdrs[j].Index) })
+	sort.Slice(hdrs, func(i, j int) bool {
+		return blockPos(hdrs[i]) < blockPos(hdrs[j]) || (blockPos(hdrs[i]) == blockPos(hdrs[j]) && hdrs[i].Index < hdrs[j].Index)
+	})
 	for i, h := range hdrs {
 		f.loops[h].ordinal = i
 	}
